@@ -453,17 +453,19 @@ theorem sysvLay_struct_ordered (ms : Mems) :
   have := roundUp_ge (x := ((sysvFold false ms {}).bitpos + 7) / 8) (le_sysvAlignFold ms 1)
   omega
 
-/-- the enum rule: an enumerated type has the size c2mir and the platform compiler agree on, for
-every representable range of enumerators; when it is 4 bytes wide also the same signedness -/
-theorem enumBase_size (mn mx : Int) (h0 : mn ≤ 0) (h1 : 0 ≤ mx)
-    (hmn : -9223372036854775808 ≤ mn) (hmx : mx ≤ 18446744073709551615)
-    (hboth : mn < 0 → mx ≤ 9223372036854775807) :
-    (c2mEnumBase mn mx).size = (gccEnumBase mn mx).size
-    ∧ ((gccEnumBase mn mx).size = 4 → c2mEnumBase mn mx = gccEnumBase mn mx) := by
+/-- the enum rule: c2mir accepts exactly the enumerator ranges the platform compiler accepts, and
+gives the enumerated type the same underlying type (size and signedness) -/
+theorem enumBase_eq (mn mx : Int) (h0 : mn ≤ 0) (h1 : 0 ≤ mx)
+    (hmn : -9223372036854775808 ≤ mn) (hmx : mx ≤ 18446744073709551615) :
+    c2mEnumOk mn mx = gccEnumOk mn mx
+    ∧ (gccEnumOk mn mx = true → c2mEnumBase mn mx = gccEnumBase mn mx) := by
+  refine ⟨rfl, ?_⟩
+  intro hok
+  simp only [gccEnumOk, Bool.not_eq_true', Bool.and_eq_false_iff, decide_eq_false_iff_not] at hok
   unfold c2mEnumBase gccEnumBase
   repeat' split
   all_goals first
+    | rfl
     | omega
-    | (simp [Sc.size]; try omega)
 
 end MirVerif.Layout
